@@ -67,8 +67,8 @@ CrashInit ==
   /\ waiter = "none" /\ alive = FALSE /\ crashes = 1
   /\ ncall = [o \in {d.obj : d \in {x \in DescsOf(sh) : x.k \in {"act", "cact"}}} |-> 0]
   /\ fate = [o \in {d.obj : d \in {x \in DescsOf(sh) : x.k \in {"act", "cact"}}} |-> "?"]
-  /\ wq = <<>>
-  /\ obs = Observe(InitObs(ConfigOf(sh)), [ev |-> "Crash", snap |-> SnapSeq(dur), reason |-> dreason, base |-> "-", old |-> FALSE, recovery |-> TRUE])
+  /\ wq = <<>> /\ aged = TraceLog[2].old
+  /\ obs = Observe(InitObs(ConfigOf(sh)), [ev |-> "Crash", snap |-> SnapSeq(dur), reason |-> dreason, base |-> "-", old |-> aged, recovery |-> TRUE])
   /\ bad = {} /\ hist = <<[ev |-> "none"], 0>>
   /\ l = 3
 CInit == IF IsCrashTrace THEN CrashInit ELSE (Init /\ l = 2)
